@@ -149,7 +149,7 @@ def oracle(lines, io, spec=None):
         for (k2, l2, s2, *_r) in after:
             got = reads.get(k2)
             if got != 'R Found %d %d' % (l2, s2):
-                fails.append('[F7] record %s after the skipped damaged record is not served with its original bytes from the recovered blob: %s' % (k2, got))
+                fails.append('record %s after the skipped damaged record is not served with its original bytes from the recovered blob: %s' % (k2, got))
                 break
     for k2, got in reads.items():
         if '?' in got:
